@@ -19,7 +19,7 @@ from rv.workloads import integrator_histories as H
 
 ID = 'C02'
 RULE = ('seeded random histories of integrate(chunk)/predict/get_pva/get_time/set_pva over random increments tables '
-        '(20..400 rows, irregular dt; class long: 2200..4000 rows with chunks of 1..1500 rows), initial buffer capacity 2..64 (long: up to 10000), chunk sizes 0..n aimed at the capacity boundary '
+        '(20..400 rows, irregular dt; class long: 2200..4000 rows with chunks of 1..1500 rows), initial buffer capacity 2..64 (long: up to 10000; class huge: one call of 1.06..3.7 million rows on the default capacity against the same rows in chunks; class repeated_stamps: tables with dt = 0 rows, chunks ending right before them), chunk sizes 0..n aimed at the capacity boundary '
         '(ending exactly at capacity, one short, one over, > 2x capacity), both altitude modes; a share of the histories '
         'is re-run in a NUMBA_BOUNDSCHECK=1 subprocess; non-trivial = history with more than one integrate call or any '
         'predict/set_pva (the tests use exactly one integrate call); distinct = generator parameters')
@@ -27,8 +27,8 @@ ASSUMPTIONS = ['Euler-angle extraction gives the same bits for an element whatev
                'if not, the run is inconclusive)', 'in 2-D histories the states given to set_pva have VD = 0 (non-zero VD is C13)']
 REQUIRED_OBS = ['set_pva_angles_kept', 'tables_with_permuted_columns', 'model_comparisons', 'predict_calls', 'set_pva_calls', 'growth_events', 'empty_chunks', 'kernel_calls',
                 'invariant_evaluations', 'chunks_ending_exactly_at_capacity', 'predict_when_full', 'boundscheck_histories',
-                'index_conservation_checked', 'stale_return_checked']
-REQUIRED_CLASSES = {'all': ['3d', '2d', 'long', 'boundscheck']}
+                'index_conservation_checked', 'stale_return_checked', 'histories_with_repeated_stamps', 'chunks_ending_before_repeated_stamp', 'huge_single_calls']
+REQUIRED_CLASSES = {'all': ['3d', '2d', 'long', 'boundscheck', 'repeated_stamps', 'huge']}
 STATE = {}
 
 
@@ -52,6 +52,15 @@ def cases(seed, tier):
     for i in range(nl):
         out.append(dict(seed=int(seed) * 1000003 + 400000 + i, cls='long', with_altitude=i % 2 == 0, initial_size=[64, 1000, 10000, 257][i % 4],
                         n_inc=2200 + 450 * (i % 5), long=True, cost=40))
+    # increments tables with repeated stamps (rows with dt = 0 that still carry increments)
+    nr = 150 if tier == 'quick' else 4000
+    for i in range(nr):
+        out.append(dict(seed=int(seed) * 1000003 + 600000 + i, cls='repeated_stamps', with_altitude=i % 2 == 0, initial_size=2 + (i * 7) % 63,
+                        n_inc=20 + (i * 37) % 181, repeats=True, cost=1))
+    # single calls of more than a million rows on the default capacity (growth-step logic, 32-bit counters, ...)
+    for i in range(1 if tier == 'quick' else 6):
+        out.append(dict(seed=int(seed) * 1000003 + 700000 + i, cls='huge', with_altitude=i % 2 == 0,
+                        n_inc=int(1.06e6 + 4e4 * ((seed + i) % 5)) if i < 3 else int(2.2e6 + 3e5 * i), cost=400))
     for b in range(nb):
         out.append(dict(seed=int(seed) * 1000003 + 500000 + b * per, cls='boundscheck', count=per, cost=per * 1.5))
     return out
@@ -77,7 +86,7 @@ def run_case(case):
     if not STATE.get('euler_ok', True):
         return dict(violations=[], obs={}, nontrivial=False,
                     inconclusive='Euler extraction is batch-length dependent on this platform: attitude columns not comparable bitwise')
-    out, sample = H.run_history(case)
+    out, sample = H.run_huge(case) if case['cls'] == 'huge' else H.run_history(case)
     return dict(violations=out, obs=dict(H.OBS), nontrivial=sample['ops'] > 1, sample=sample)
 
 
